@@ -81,11 +81,29 @@ func parseModes(s string) Modes {
 	return m
 }
 
+// matchName: pat is an obligation name in which '*' stands for any text (obligation names contain the source text of
+// the statement they belong to; a pattern can leave that part open so that a renamed local does not change the match)
 func matchName(pat, name string) bool {
-	if strings.HasSuffix(pat, "*") {
-		return strings.HasPrefix(name, pat[:len(pat)-1])
+	if !strings.Contains(pat, "*") {
+		return pat == name
 	}
-	return pat == name
+	parts := strings.Split(pat, "*")
+	if !strings.HasPrefix(name, parts[0]) {
+		return false
+	}
+	rest := name[len(parts[0]):]
+	for i := 1; i < len(parts); i++ {
+		p := parts[i]
+		if i == len(parts)-1 {
+			return strings.HasSuffix(rest, p)
+		}
+		j := strings.Index(rest, p)
+		if j < 0 {
+			return false
+		}
+		rest = rest[j+len(p):]
+	}
+	return true
 }
 
 func main() {
